@@ -74,6 +74,18 @@ class Origins:
             return "%s(%s)" % (fn, ", ".join(self.op_term(a, 1) for a in t["args"]))
         return self.rv_term(d[3], 1)
 
+    def expand(self, term, rounds=3):
+        """Replace `var:_N` (compiler temporaries with a single definition that are mutably borrowed) by their definition."""
+        for _ in range(rounds):
+            m = re.search(r"var:_(\d+)(?![\w#])", term)
+            if not m:
+                break
+            d = self.def_term(int(m.group(1)))
+            if d is None:
+                break
+            term = term[:m.start()] + d + term[m.end():]
+        return term
+
     def place_term(self, place, depth=0):
         s = self._place_term(place, depth)
         self.types.setdefault(s, place.get("ty"))
